@@ -79,10 +79,12 @@ def ev_scenarios(rng, sid):
     def by(o, line, foreign):      # issue an op from the owning thread or from outside
         return ("m %s" % line) if foreign else ("w%d %s" % (o, line))
     blocks = []
-    kinds = ["persist", "oneshot", "dispatch", "write", "timer1", "timerP", "timerD", "eof", "malformed", "foreign-disable", "redel"]
+    kinds = ["oneshot-write", "persist", "oneshot", "dispatch", "write", "timer1", "timerP", "timerD", "eof", "malformed", "foreign-disable", "redel"]
     rng.shuffle(kinds)
     for kind in kinds[:rng.randint(4, 8)]:
         o = rng.randrange(n); x = nu(); f = rng.random() < 0.5
+        if kind in ("persist", "write", "timerP", "eof"):
+            f = False    # the callback of these objects disables itself: a concurrent foreign call on the same object would be a data race of the scenario
         B = []
         if kind == "persist":
             B += ["m evnew %d 0 2 3 3" % x, by(o, "evadd %d %d 0 0 0 0" % (x, o), f), "m mkready %d" % x, "m evwait %d 3 3000" % x, "Q", "m evcount %d" % x,
@@ -90,6 +92,8 @@ def ev_scenarios(rng, sid):
         elif kind == "oneshot":
             B += ["m evnew %d 0 0 0 1" % x, by(o, "evadd %d %d 0 1 0 0" % (x, o), f), "m mkready %d" % x, "m evwait %d 1 3000" % x, "Q", "m evcount %d" % x,
                   "m mkready %d" % x, "Q", "m evcount %d" % x, by(o, "evadd %d %d 0 1 0 0" % (x, o), f), "m evwait %d 2 3000" % x, "Q", "m evcount %d" % x]
+        elif kind == "oneshot-write":
+            B += ["m evnew %d 1 0 0 1" % x, by(o, "evadd %d %d 1 1 0 0" % (x, o), f), "m evwait %d 1 3000" % x, "Q", "m evcount %d" % x]
         elif kind == "dispatch":
             B += ["m evnew %d 0 0 0 1" % x, by(o, "evadd %d %d 0 2 0 0" % (x, o), f), "m mkready %d" % x, "m evwait %d 1 3000" % x, "Q", "m evcount %d" % x,
                   by(o, "even %d %d 0 2 0 0" % (x, o), f), "m evwait %d 2 3000" % x, "Q", "m evcount %d" % x, by(o, "evdis %d %d 0 2 0 0" % (x, o), f),
